@@ -359,7 +359,7 @@ theorem main (fs : List Field) (vs : List Val) (rs : List (List Char)) (d : List
         exact hfree r hr1 c hc
     have hpad : readDelim fs (padLine (rs.map strip) d pads) d = readDelim.go fs (rs.map strip) := by
       apply readDelim_of_tokens
-      unfold padLine
+      simp only [padLine, padded]
       rw [tokens_of_joined d _ hd hnl]
       · rw [List.map_map]
         have hlz : (rs.map strip).length ≤ pads.length := by simpa [hrl] using hp
@@ -398,7 +398,7 @@ theorem main (fs : List Field) (vs : List Val) (rs : List (List Char)) (d : List
     rw [hback, hpad]
     refine ⟨?_, ?_⟩
     · exact go_canon fs vs rs hlen hrl hlaw
-    · trivial
+    · split <;> simp
 
 end Props.C11
 
